@@ -68,7 +68,7 @@ static inline uint32_t cs_raw(cs_t *cs, uint32_t radix, int noise) {
         break;
     case CS_FUZZ:
         if (cs->fz_i < cs->fz_n) v = cs->fz[cs->fz_i++]; else v = 0;
-        if (radix > 256 || radix == 0) {
+        if (radix > 256 || noise) { /* two bytes: the encoding of a recorded case must not depend on a noise draw's range */
             v <<= 8;
             if (cs->fz_i < cs->fz_n) v |= cs->fz[cs->fz_i++];
         }
